@@ -65,6 +65,10 @@ CONTEXTS = [
     'if ( a ) [ b ]', 'with ( a ) b', 'a\n++', 'a ++\n', 'x = y\n++',
     'typeof a', 'typeof ( a )', 'return a', 'return ( a )', 'return { }',
     'case', 'get', 'set', 'x = get', 'a . get', 'a . set',
+    'a .\\n if', 'a . /*c*/ if', 'a .\\n while ( b )', 'a . /*c*/ return',
+    'x = a .\\n delete', 'a\\n. if', 'a . if . b', 'a . if [ 0 ]',
+    'false', 'undefined', 'x = null', 'x = true', 'a || null', 'f ( null',
+    '[ null', 'x = { p : null',
 ]
 
 
